@@ -858,6 +858,19 @@ func c19FloatFitsInt64(f float64) bool {
 }
 
 // c19Class names the value class used in tags and signatures.
+// c19StrClass classifies the content of a string (of the plain or of a named string type)
+func c19StrClass(s string) string {
+	switch {
+	case c19IntRe.MatchString(s):
+		return "string-int-numeral"
+	case c19FloatRe.MatchString(s):
+		return "string-float-numeral"
+	case !strings.ContainsAny(s, "0123456789") && !c19InfRe.MatchString(s):
+		return "string-nonnumeric"
+	}
+	return "string-ambiguous"
+}
+
 func c19Class(xv interface{}) string {
 	if xv == nil {
 		return "nil"
@@ -885,16 +898,7 @@ func c19Class(xv interface{}) string {
 		if rv.Type() != reflect.TypeOf("") {
 			return "string-named"
 		}
-		s := rv.String()
-		switch {
-		case c19IntRe.MatchString(s):
-			return "string-int-numeral"
-		case c19FloatRe.MatchString(s):
-			return "string-float-numeral"
-		case !strings.ContainsAny(s, "0123456789") && !c19InfRe.MatchString(s):
-			return "string-nonnumeric"
-		}
-		return "string-ambiguous"
+		return c19StrClass(rv.String())
 	case k == reflect.Slice:
 		switch xv.(type) {
 		case []byte:
@@ -947,9 +951,10 @@ func c19RefToInt(xv interface{}) c19Ref {
 			return c19Ref{whySkip: "float outside int64: Go leaves the conversion implementation-defined"}
 		}
 		return c19Ref{judged: true, want: int64(rv.Float())}
-	case k == reflect.String && rv.Type() == reflect.TypeOf(""):
+	case k == reflect.String:
+		// a value of a named string type is a string too: its content decides
 		s := rv.String()
-		switch c19Class(xv) {
+		switch c19StrClass(s) {
 		case "string-int-numeral":
 			i, err := strconv.ParseInt(s, 10, 64)
 			if err != nil {
@@ -969,7 +974,7 @@ func c19RefToInt(xv interface{}) c19Ref {
 	case k == reflect.Slice || k == reflect.Array || k == reflect.Map:
 		return c19Ref{judged: true, want: int64(0)}
 	}
-	// bool is excluded by the design; named strings, struct, ptr, chan, func, complex: statement silent
+	// bool is excluded by the design; struct, ptr, chan, func, complex: statement silent
 	return c19Ref{whySkip: "statement silent for " + c19Class(xv)}
 }
 
@@ -986,8 +991,8 @@ func c19RefToFloat(xv interface{}) c19Ref {
 		return c19Ref{judged: true, want: float64(rv.Uint())}
 	case c19IsFloat(k):
 		return c19Ref{judged: true, want: rv.Float()}
-	case k == reflect.String && rv.Type() == reflect.TypeOf(""):
-		switch c19Class(xv) {
+	case k == reflect.String:
+		switch c19StrClass(rv.String()) {
 		case "string-int-numeral", "string-float-numeral":
 			f, err := strconv.ParseFloat(rv.String(), 64)
 			if err != nil {
@@ -1491,6 +1496,9 @@ func c19Universe() []c19Val {
 	g("duration", 1500*time.Millisecond)
 	g("namedstring", c19Str("7"))
 	g("namedstring", c19Str("abc"))
+	g("namedstring", c19Str("-12"))
+	g("namedstring", c19Str("2.5e3"))
+	g("namedstring", c19Str(""))
 	g("namedint", c19Int(9))
 	g("bytes", []byte{})
 	g("bytes", []byte("ab"))
